@@ -264,8 +264,8 @@ def std_replay(kind, model, sizes, **kw):
 
 
 SIZES = {
-    "quick": {2: [(1, 1), (2, 1), (2, 3)], 3: [(1, 1, 1), (2, 1, 3)], 4: [(1, 1, 1, 1)], 5: [(1, 2, 1, 1, 1)]},
-    "thorough": {2: [(1, 1), (2, 1), (2, 3), (8, 8), (1, 8)], 3: [(1, 1, 1), (2, 1, 3), (8, 1, 2)], 4: [(1, 1, 1, 1), (2, 1, 1, 3)],
+    "quick": {2: [(1, 1), (2, 1), (2, 3), (9, 5)], 3: [(1, 1, 1), (2, 1, 3)], 4: [(1, 1, 1, 1)], 5: [(1, 2, 1, 1, 1)]},
+    "thorough": {2: [(1, 1), (2, 1), (2, 3), (9, 5), (8, 8), (1, 8)], 3: [(1, 1, 1), (2, 1, 3), (8, 1, 2)], 4: [(1, 1, 1, 1), (2, 1, 1, 3)],
                  5: [(1, 2, 1, 1, 1)], 6: [(1,) * 6], 7: [(1,) * 7], 8: [(1,) * 8, (2, 1, 1, 1, 1, 1, 1, 8)]},
 }
 
